@@ -54,7 +54,8 @@ MANIFEST = {
             "than the declared target are compared (clauses, count, names, "
             "header items in order; graph views; list contents), and the "
             "result header is checked for exactly one new numbered "
-            "'transformation' entry in order. Exploration by sampling.",
+            "'transformation' entry in order, also along chains of 11-16 "
+            "transformations. Exploration by sampling.",
     "design_ref": "DESIGN.md 4.11",
     "note": "Aliasing can only be observed through a later change of one of "
             "the parties, which is why histories (not single calls) are "
